@@ -1,4 +1,5 @@
 CONSTANTS
+  Ks = {0, 7, 8, 16, 31, 32, 62, 63, 64, 65, 72, 128}
   Ints <- GenNone
   Datums <- GenNone
   Txs <- GenNone
